@@ -24,6 +24,11 @@ def term(op, kv):
         return f"gc_prestate (mkPrefilterState {int(kv['skips'])}%N {int(kv['skipped'])}%N) {ops} []"
     if op in ("twnew", "twrnew") and 0 < len(kv.get("x", "")) <= 600 and not any(k in kv for k in ("an", "fln")):
         return f"gc_{op} {nlist(kv['x'])}"
+    if op == "mmiter" and len(kv.get("h", "")) <= 400 and len(kv.get("x", "")) <= 80 and int(kv.get("k", "0")) <= 30 \
+            and not any(k in kv for k in ("own", "al", "fl", "fln")):
+        if kv.get("dir") == "r":
+            return f"gc_riter {int(kv['k'])} {nlist(kv.get('x', ''))} {nlist(kv.get('h', ''))} (Some {len(kv.get('h', '')) // 2}%N)"
+        return f"gc_fiter {int(kv['k'])} {nlist(kv.get('x', ''))} {nlist(kv.get('h', ''))} 0%N"
     if op in ("rknew", "rkrnew") and len(kv.get("x", "")) <= 1300:
         return f"gc_{op} {nlist(kv.get('x', ''))}"
     return None
@@ -40,6 +45,23 @@ def expect(op, res):
     if op == "prestate":
         m = re.fullmatch(r"([tf]*)\|(\d+),(\d+)", res)
         return [1] + [1 if c == "t" else 0 for c in m.group(1)] + [9, int(m.group(2)), int(m.group(3))] if m else None
+    if op == "mmiter":
+        out = []
+        for item in ([] if res in ("", "-") else res.split(";")):
+            if ":" in item:
+                hint, it = item.split(":")
+                lo, hi = hint.split("-")
+                out += [int(lo), 2 ** 64 if hi == "inf" else int(hi)]
+            else:
+                it = item
+            m = re.fullmatch(r"Some\((\d+)\)", it)
+            if m:
+                out += [1, int(m.group(1))]
+            elif it == "None":
+                out += [0, 0]
+            else:
+                return None
+        return out
     if op in ("rknew", "rkrnew"):
         m = re.search(r"hash: Hash\((\d+)\), hash_2pow: (\d+)", res)
         return [1, int(m.group(1)), int(m.group(2))] if m else None
@@ -58,7 +80,7 @@ def crosscheck(pid, cases, impl_rows, max_cases=120, timeout=600):
         res = vlib.canon_res(impl_rows[i][0])
         if op in ("pair", "pairidx", "twnew", "twrnew") and res.startswith("Panic"):
             pass
-        e = expect(op, impl_rows[i][0] if op in ("twnew", "twrnew", "prestate", "rknew", "rkrnew") else res)
+        e = expect(op, impl_rows[i][0] if op in ("twnew", "twrnew", "prestate", "rknew", "rkrnew", "mmiter") else res)
         if e is None:
             continue
         picked.append((i, t, e))
